@@ -2088,11 +2088,56 @@ class VM:
             pos = clamp(index_arg(args, 1))
             return search in s[pos:]
 
+        def replace_string(search, replace_value, all_matches):
+            # Replace the first (or every) occurrence of the string `search`
+            functional = isinstance(replace_value, JSFunction) or callable(
+                replace_value
+            )
+            template = "" if functional else to_string(replace_value)
+
+            def substitution(pos):
+                if functional:
+                    result = self._call_callback(replace_value, [search, pos, s])
+                    return to_string(result)
+                # GetSubstitution for a match that has no captures
+                out = []
+                i = 0
+                while i < len(template):
+                    two = template[i : i + 2]
+                    if two == "$$":
+                        out.append("$")
+                    elif two == "$&":
+                        out.append(search)
+                    elif two == "$`":
+                        out.append(s[:pos])
+                    elif two == "$'":
+                        out.append(s[pos + len(search) :])
+                    else:
+                        out.append(template[i])
+                        i += 1
+                        continue
+                    i += 2
+                return "".join(out)
+
+            out = []
+            end = 0
+            pos = s.find(search)
+            while pos != -1:
+                out.append(s[end:pos])
+                out.append(substitution(pos))
+                end = pos + len(search)
+                if not all_matches:
+                    break
+                pos = s.find(search, pos + max(len(search), 1))
+            out.append(s[end:])
+            return "".join(out)
+
         def replace(*args):
             pattern = args[0] if args else UNDEFINED
-            replacement = to_string(args[1]) if len(args) > 1 else "undefined"
+            replace_value = args[1] if len(args) > 1 else UNDEFINED
 
             if isinstance(pattern, JSRegExp):
+                replacement = to_string(replace_value)
                 # Replace with regex using microjs.regex
                 try:
                     regex_internal = pattern._internal
@@ -2147,41 +2192,20 @@ class VM:
                     raise TimeLimitError("Regex execution timeout")
             else:
                 # String replace - only replace first occurrence
-                search = to_string(pattern)
-                # Handle special replacement patterns
-                repl = replacement
-                if "$$" in repl:
-                    repl = repl.replace("$$", "\x00DOLLAR\x00")
-                if "$&" in repl:
-                    repl = repl.replace("$&", search)
-                repl = repl.replace("\x00DOLLAR\x00", "$")
-                # Find first occurrence and replace
-                idx = s.find(search)
-                if idx >= 0:
-                    return s[:idx] + repl + s[idx + len(search) :]
-                return s
+                return replace_string(to_string(pattern), replace_value, False)
 
         def replaceAll(*args):
             pattern = args[0] if args else UNDEFINED
-            replacement = to_string(args[1]) if len(args) > 1 else "undefined"
+            replace_value = args[1] if len(args) > 1 else UNDEFINED
 
             if isinstance(pattern, JSRegExp):
                 # replaceAll with regex requires global flag
                 if "g" not in pattern._flags:
                     raise JSTypeError("replaceAll called with a non-global RegExp")
-                return replace(pattern, replacement)
+                return replace(pattern, replace_value)
             else:
                 # String replaceAll - replace all occurrences
-                search = to_string(pattern)
-                # Handle special replacement patterns
-                if "$$" in replacement:
-                    # $$ -> $ (must be done before other replacements)
-                    replacement = replacement.replace("$$", "\x00DOLLAR\x00")
-                if "$&" in replacement:
-                    # $& -> the matched substring
-                    replacement = replacement.replace("$&", search)
-                replacement = replacement.replace("\x00DOLLAR\x00", "$")
-                return s.replace(search, replacement)
+                return replace_string(to_string(pattern), replace_value, True)
 
         def match(*args):
             pattern = args[0] if args else None
